@@ -25,7 +25,6 @@ Oracle (byte boundary; reference = pydicom's own writer/reader + zlib in vlib.ds
 """
 from __future__ import annotations
 
-import logging
 import os
 import shutil
 import struct
@@ -55,6 +54,7 @@ ASSUMPTIONS = [
 ]
 WORKERS = {"quick": 16, "thorough": 16}
 CASE_TIMEOUT = 120
+DIMSE_TIMEOUT = 30.0          # generous watchdog only: an operation that needed >= 80 % of it makes the case inconclusive
 MAX_INCONCLUSIVE_FRAC = 0.05
 
 TS_NAMES = ("implicit", "explicit", "big", "deflated")
@@ -200,7 +200,7 @@ def gen_case(seed, idx, ts, recv_chunked, profile, n_ops, rot, ts_map=None):
 
 
 def gen_cases(tier, seed):
-    n_cases = 64 if tier == "quick" else 640
+    n_cases = 64 if tier == "quick" else 2000
     rng = rng_for(seed, PID, "plan", tier)
     profiles = list(PDU_PROFILES)
     cases = []
@@ -503,8 +503,9 @@ class Run:
         from pynetdicom import _config
         name = op["op"]
         mid = op["_msg_id"]
-        res = {"exc": None, "status": None, "returned": []}
+        res = {"exc": None, "status": None, "returned": [], "t": 0.0}
         op["_res"] = res
+        t0 = time.time()
         try:
             if name.startswith("store"):
                 prev = _config.STORE_SEND_CHUNKED_DATASET
@@ -540,6 +541,7 @@ class Run:
                 res["returned"].append((res["status"], ds))
         except Exception as exc:
             res["exc"] = "%s: %s" % (type(exc).__name__, str(exc)[:300])
+        res["t"] = time.time() - t0
 
     # ------------------------------------------------------------------------------------------------ oracles
     def sig(self, *parts):
@@ -857,7 +859,7 @@ def run_case(case):
         rq_max = case["rq_max"]
         dest_max = case["dest_max"]
         run.limit_to_acc, run.limit_to_req, run.limit_to_dest = ac_max, rq_max, dest_max
-        timeouts = (10.0, 30.0, 30.0, 10.0)
+        timeouts = (10.0, DIMSE_TIMEOUT, 30.0, 10.0)
         # ---- acceptor
         scp = harness.make_ae("SCP", timeouts=timeouts, max_pdu=ac_max)
         aes.append(scp)
@@ -889,11 +891,15 @@ def run_case(case):
                     "inconclusive": "contexts not accepted as requested: %r" % accepted}
         for op in ops:
             if not assoc.is_established:
-                op["_res"] = {"exc": "association no longer established", "status": None, "returned": []}
+                op["_res"] = {"exc": "association no longer established", "status": None, "returned": [], "t": 0.0}
                 continue
             run.execute(assoc, op)
             run.bump("op_" + op["op"])
         established_at_end = assoc.is_established
+        slow = [(o["op"], round(o["_res"]["t"], 1)) for o in ops if o["_res"]["t"] >= 0.8 * DIMSE_TIMEOUT]
+        if slow:
+            # wall-clock trouble (machine load), not evidence about the property
+            run.inconclusive = "operations ran into the DIMSE timeout watchdog: %r" % slow
         if assoc.is_established:
             assoc.release()
         for ae in aes:
@@ -952,6 +958,9 @@ def run_case(case):
         left = [f for f in os.listdir(tmp) if not f.startswith("send_")]
         if left:
             run.bump("tempfiles_left_after_case", len(left))
+        if slow:
+            # keep what was observed at the byte level, drop the verdicts that only say "no answer in time"
+            run.viol = [v for v in run.viol if "|not-delivered|" not in v["key"] and not v["key"].startswith("association-lost")]
         sample.update(notes=run.notes[:6], wall=round(time.time() - t0, 2), counters=dict(run.cnt))
         return {"key": sha(sorted(run.sigs)), "nontrivial": run.cnt.get("decoded_compared", 0) > 0, "sample": sample,
                 "violations": run.viol, "counters": dict(run.cnt), "sigs": sorted(run.sigs),
